@@ -146,21 +146,33 @@ Frequent(SS, num, den) ==
   LET n == Len(SS)
   IN  {s \in UNION {SS[i] : i \in 1..n} : NonTrivial(s) /\ (CountIn(SS, s) * den > num * n \/ CountIn(SS, s) = n)}
 
-F_Consensus(Vs, num, den, W, res) ==
+\* the split s of tree V carries a length (on one of the branches that carry it)
+HasLen(V, s) == \E x \in Carriers(V, s) : BrOf(V, x).len # NIL
+
+\* lenPred: the name under which the length predicate is reported.  "ConsensusLengths" on collections whose trees carry all
+\* their lengths or none; on collections where some trees give a split no length, the mean is taken over the trees that
+\* give it one ("ConsensusLengthsOverTreesThatHaveOne": gotree averages its absent value -1 in, a recorded known finding)
+F_ConsensusNamed(Vs, num, den, W, res, lenPred) ==
   LET n  == Len(Vs)
       SS == TLCEval([i \in 1..n |-> Splits(Vs[i])])
       SL == TLCEval([i \in 1..n |-> SplitLen(Vs[i])])
+      With(s) == {i \in 1..n : s \in SS[i] /\ HasLen(Vs[i], s)}
   IN  Fail("ConsensusTips", W.names = Vs[1].names /\ UniqueNames(W))
       \cup Fail("ConsensusSplits", NTSplits(W) = Frequent(SS, num, den))
       \cup Fail("ConsensusSupports",
                 \A x \in NonRoot(W) \ W.tips :
                    LET s == SplitOf(W, x) IN NonTrivial(s) => QNear(res.sup4[W.br[x].id], CountIn(SS, s), n))
-      \cup Fail("ConsensusLengths",
+      \cup Fail(lenPred,
                 \A x \in NonRoot(W) :
                    LET s == SplitOf(W, x)
                        c == CountIn(SS, s)
-                   IN  (c > 0 /\ Cardinality(Carriers(W, s)) = 1) => QNear(res.len4[W.br[x].id], SumLen16(SS, SL, s), 32 * c))
+                       P == With(s)
+                   IN  (c > 0 /\ Cardinality(Carriers(W, s)) = 1) =>
+                         IF P = {} THEN res.len4[W.br[x].id] = NIL4
+                         ELSE QNear(res.len4[W.br[x].id], SumOver(P, LAMBDA i : SL[i][s] \div 32768), 32 * Cardinality(P)))
       \cup Fail("ConsensusTipsWithoutSupport", \A x \in W.tips : res.sup4[W.br[x].id] = NIL4)
+
+F_Consensus(Vs, num, den, W, res) == F_ConsensusNamed(Vs, num, den, W, res, "ConsensusLengths")
 
 -----------------------------------------------------------------------------
 (* C10: Felsenstein and transfer supports                                   *)
